@@ -832,7 +832,13 @@ impl<'a> Lexer<'a> {
                         next_token = Some(t);
                         break;
                     }
-                    None => (),
+                    None => {
+                        if self.result.is_err() {
+                            // an error was recorded for this character
+                            // do not continue consuming characters
+                            break;
+                        }
+                    }
                 },
                 None => {
                     self.at_end = true;
